@@ -120,7 +120,11 @@ where
         }
         None => {
             for _ in 0..steps {
-                let mut c = if lists && r.gen_bool(0.18) {
+                let nconn = run.used.len() as i64;
+                let mut c = if run.bias_peer > 0 && nconn > 0 && r.gen_bool(0.22) {
+                    // churn: close one connection (then the poll that follows lets the slot be refilled)
+                    json!({"c": if r.gen_bool(0.5) { "close" } else { "failMux" }, "id": r.gen_range(1..=nconn)})
+                } else if lists && r.gen_bool(0.18) {
                     json!({"c": if r.gen_bool(0.6) { "block" } else { "unblock" }, "peer": r.gen_range(1..=2)})
                 } else {
                     gen_cmd(r, &run, cfg["maxconn"].as_u64().unwrap_or(8) as usize, 0.0)
